@@ -51,6 +51,7 @@ func sliceDesc(v fold.Val) string {
 func parserHelperRules(c *Ctx, prop string) {
 	rule := prop + ".parse-helpers"
 	c.R.Rule(rule, 5, "bsplit3, httpParseHeaderLine, btrim, canonicalizeHeaderKey, hostport never index out of range and split exactly at the separators")
+	httpVersionRules(c, rule)
 	// ---- bsplit3 ----
 	if f := c.fn(rule, ws, "bsplit3"); f != nil {
 		var problems []string
@@ -311,4 +312,140 @@ func parserHelperRules(c *Ctx, prop string) {
 		c.R.AddCells(total)
 		c.verdict(rule, rule+"/hostport", c.P.FuncPos(f), uniq(problems), fmt.Sprintf("%d cells: a port after the last ']' is kept, otherwise the default is appended", total))
 	}
+}
+
+// concreteBytes returns the bytes of a slice whose elements are all constants.
+func concreteBytes(mm *fold.Machine, v fold.Val) ([]byte, bool) {
+	switch s := v.(type) {
+	case fold.SliceV:
+		el := mm.Elems(s)
+		out := make([]byte, len(el))
+		for i, e := range el {
+			k, ok := e.(fold.Int)
+			if !ok || !k.IsConst() {
+				return nil, false
+			}
+			out[i] = byte(k.Const())
+		}
+		return out, true
+	case fold.Nil:
+		return nil, true
+	case fold.Str:
+		return []byte(s), true
+	}
+	return nil, false
+}
+
+// httpVersionRules evaluates httpParseVersion on concrete version tokens and
+// compares it with the grammar "HTTP/" 1*DIGIT "." 1*DIGIT (at least 8 bytes):
+// nothing but decimal digits may be taken for a number - no signs, no bytes
+// that merely share bits with the digits.
+func httpVersionRules(c *Ctx, rule string) {
+	f := c.fn(rule, ws, "httpParseVersion")
+	if f == nil {
+		return
+	}
+	var inputs []string
+	nums := []string{"", "0", "1", "2", "9", "01", "10", "11", "A", "x", ":", "/", "+1", "-1", " 1", "1 ", "1a", "\x001"}
+	for _, pre := range []string{"HTTP/", "HTTQ/", "http/", "HTTP"} {
+		for _, sep := range []string{".", ",", ""} {
+			for _, a := range nums {
+				for _, b := range nums {
+					if pre != "HTTP/" && !(a == "1" && (b == "1" || b == "0")) {
+						continue
+					}
+					inputs = append(inputs, pre+a+sep+b)
+				}
+			}
+		}
+	}
+	inputs = append(inputs, "", "HTTP/1.1.1", "HTTP/1.1 ", " HTTP/1.1", "HTTP/1..1", "HTTP/99999999999999999999.1", "HTTP/1.99999999999999999999")
+	isNum := func(s string) (int, bool) {
+		if s == "" || len(s) > 18 {
+			return 0, false
+		}
+		n := 0
+		for i := 0; i < len(s); i++ {
+			if s[i] < '0' || s[i] > '9' {
+				return 0, false
+			}
+			n = n*10 + int(s[i]-'0')
+		}
+		return n, true
+	}
+	var problems []string
+	results := make([][]string, len(inputs))
+	parallel(len(inputs), func(i int) {
+		in := inputs[i]
+		m := c.machine()
+		m.Models["fmt.Errorf"] = func(cl *fold.Call) fold.Val { return fold.Sym{Name: "not-a-number", NonNil: true} }
+		m.Models["bytes.Equal"] = func(cl *fold.Call) fold.Val {
+			a, ok1 := concreteBytes(cl.M, cl.Args[0])
+			b, ok2 := concreteBytes(cl.M, cl.Args[1])
+			if !ok1 || !ok2 {
+				return fold.Bool(cl.M.Atom(fmt.Sprintf("Equal#%d", cl.Seq)))
+			}
+			return fold.Bool(string(a) == string(b))
+		}
+		m.Models["bytes.IndexByte"] = func(cl *fold.Call) fold.Val {
+			a, ok := concreteBytes(cl.M, cl.Args[0])
+			ch, _ := cl.Args[1].(fold.Int)
+			if !ok || !ch.IsConst() {
+				return fold.Int{Lo: -1, Hi: 1 << 20}
+			}
+			return fold.K(int64(strings.IndexByte(string(a), byte(ch.Const()))))
+		}
+		ps := m.Explore(f, func(mm *fold.Machine) []fold.Val {
+			el := make([]fold.Val, len(in))
+			for j := range el {
+				el[j] = fold.K(int64(in[j]))
+			}
+			return []fold.Val{mm.NewBytes("version", el)}
+		}, nil)
+		var out []string
+		if len(ps) != 1 {
+			out = append(out, fmt.Sprintf("undecided: %d paths for the concrete token %q", len(ps), in))
+		}
+		for _, p := range ps {
+			if p.Abort != "" {
+				out = append(out, fmt.Sprintf("undecided: %q: %s", in, p.Abort))
+				continue
+			}
+			if p.Panic {
+				out = append(out, fmt.Sprintf("httpParseVersion(%q) panics: %s", in, fold.Show(p.PanicV)))
+				continue
+			}
+			ret, _ := p.Ret.(fold.Tuple)
+			if len(ret) != 3 {
+				out = append(out, "unexpected result shape")
+				continue
+			}
+			wantOK := false
+			var wa, wb int
+			if len(in) >= 8 && strings.HasPrefix(in, "HTTP/") {
+				rest := in[5:]
+				if dot := strings.IndexByte(rest, '.'); dot >= 0 {
+					a, oka := isNum(rest[:dot])
+					b, okb := isNum(rest[dot+1:])
+					if oka && okb {
+						wantOK, wa, wb = true, a, b
+					}
+				}
+			}
+			got := fold.Show(ret[2])
+			if got != fmt.Sprint(wantOK) {
+				out = append(out, fmt.Sprintf("httpParseVersion(%q) ok=%s, the grammar says %v", in, got, wantOK))
+				continue
+			}
+			if wantOK && (fold.Show(ret[0]) != fmt.Sprint(wa) || fold.Show(ret[1]) != fmt.Sprint(wb)) {
+				out = append(out, fmt.Sprintf("httpParseVersion(%q) = %s.%s, want %d.%d", in, fold.Show(ret[0]), fold.Show(ret[1]), wa, wb))
+			}
+		}
+		results[i] = out
+	})
+	for _, r := range results {
+		problems = append(problems, r...)
+	}
+	c.R.AddCells(len(inputs))
+	c.verdict(rule, rule+"/httpParseVersion", c.P.FuncPos(f), uniq(problems), fmt.Sprintf("%d concrete version tokens agree with \"HTTP/\" 1*DIGIT \".\" 1*DIGIT", len(inputs)))
 }
